@@ -24,6 +24,9 @@ std::unique_ptr<NodeResult> ForLoopNode::evaluate(PSC::Context &ctx) {
     if (iterator->type != PSC::DataType::INTEGER)
         throw PSC::RuntimeError(token, ctx, "Iterator variable must be of type INTEGER");
 
+    if (iterator->isConstant)
+        throw PSC::ConstAssignError(token, ctx, iterator->name);
+
 
     auto startRes = start.evaluate(ctx);
 
